@@ -1427,6 +1427,14 @@ class SymInt:
     def __rtruediv__(self, o):
         return o / tf(self)
 
+    def __pow__(self, k):
+        if isinstance(k, int) and not isinstance(k, bool) and 0 <= k <= 8:
+            r = z3.IntVal(1)
+            for _ in range(k):
+                r = r * self.i
+            return SymInt(r)
+        return tf(self) ** k
+
     def __neg__(self):
         return SymInt(-self.i)
 
